@@ -4,7 +4,9 @@ import Yuiv.Drv.Loop
 Driver for C18.  Request lines (link text: crossings `T:a,b,c,d` joined by `;`, `T ∈ {X,Xm,V,H}`; `e` = empty link):
 
   L <link>            components | free components | signs | writhe | pos,neg | is_knot | seifert circles
-  R <link>            number of circles of every resolution state (state index = Σ bit_k·2^k), `!` = not all circles / panic
+  R <link>            number of circles of every resolution state (state index = Σ bit_k·2^k), `!` = not all circles / panic;
+                      `h=` a running hash of the sorted least labels of the circles of every state; `ck=1` iff the verified
+                      checker `checkComps` accepts the component list of every state (also on `L`, `C` lines)
   T <link> <i> <j>    raw `traverse_edges` sequence
   B <strands> <word>  closure of a braid word (`e` = empty word) as a PD code relabelled by first appearance
   C <link>            components only (partially resolved diagrams)
@@ -125,22 +127,40 @@ def handleL (l : Link) : String :=
       | .err => "err|err|err"
     let knot := showRes (fun (b : Bool) => if b then "1" else "0") (isKnot l)
     let seif := if nfree = 0 then showRes compsStr (seifertCircles l) else "*"
-    s!"{compsStr comps}|{nfree}|{signsTxt}|{knot}|{seif}"
+    let ck1 := checkComps l comps
+    let ck2 := match oriPresState l with
+      | .ok st => match resolvedBy l st with
+        | .ok r => match components r with
+          | .ok cs => checkComps r cs
+          | _ => false
+        | _ => false
+      | _ => false
+    s!"{compsStr comps}|{nfree}|{signsTxt}|{knot}|{seif}|ck={if ck1 && ck2 then 1 else 0}"
   | .panic => "panic"
   | .err => "err"
 
 def bitsOf (n k : Nat) : List Bool := (List.range n).map (fun i => (k >>> i) % 2 == 1)
 
+def minLabels (cs : List Path) : List Nat :=
+  let ms := cs.map (fun p => minOf p.edges)
+  ms.foldr (fun x acc => (acc.takeWhile (· < x)) ++ x :: acc.dropWhile (· < x)) []   -- insertion sort
+
+def hashStep (h x : Nat) : Nat := (h * 31 + x + 1) % 1000000007
+
 def handleR (l : Link) : String :=
   let n := crossingNum l
-  let counts := (List.range (2 ^ n)).map (fun k =>
+  let res := (List.range (2 ^ n)).foldl (fun (acc : List String × Nat × Bool) k =>
     match resolvedBy l (bitsOf n k) with
     | .ok r =>
-      match circleCount r with
-      | .ok c => toString c
-      | _ => "!"
-    | _ => "!")
-  String.intercalate "," counts
+      match components r with
+      | .ok cs =>
+        if cs.all (·.closed) then
+          let h := (minLabels cs).foldl hashStep (hashStep acc.2.1 0)
+          (toString cs.length :: acc.1, h, acc.2.2 && checkComps r cs)
+        else ("!" :: acc.1, acc.2.1, false)
+      | _ => ("!" :: acc.1, acc.2.1, false)
+    | _ => ("!" :: acc.1, acc.2.1, false)) ([], 0, true)
+  s!"{String.intercalate "," res.1.reverse}|h={res.2.1}|ck={if res.2.2 then 1 else 0}"
 
 def pairsStr (ps : List (Nat × Nat)) : String :=
   String.intercalate "," (ps.map (fun p => s!"{p.1}.{p.2}"))
@@ -174,7 +194,11 @@ def handle (t : List String) : String :=
         let n ← parseNat? n
         let w ← parseWord? w
         some (showRes (fun pd => pdStr (relabel pd)) (closurePD n w))
-    | ["C", s] => do let l ← parseLink? s; some (showRes compsStr (components l))
+    | ["C", s] => do
+        let l ← parseLink? s
+        match components l with
+        | .ok cs => some s!"{compsStr cs}|ck={if checkComps l cs then 1 else 0}"
+        | _ => some "panic"
     | ["A", s] => do let c ← parseCrossing? s; some (arcsStr c)
     | _ => none
   r.getD "bad-request"
